@@ -395,7 +395,11 @@ def enum(ctx):
                     z = [d for d in cdefs if is_int(d, 0)]
                     inc = [d for d in cdefs if (d[0] == 'bin' and d[1] == 'Add' and strip(d[2]) == val and is_int(d[3], 1)) or
                            (is_call(unwrap_all(d), 'checked_add') and strip(unwrap_all(d)[2][0]) == val and is_int(unwrap_all(d)[2][1], 1))]
-                    ok4 = len(cdefs) == 2 and len(z) == 1 and len(inc) == 1
+                    ok4 = len(cdefs) >= 2 and len(z) == 1 and len(inc) == len(cdefs) - 1
+                    # ... on every trip: no way round the loop that leaves the counter as it was
+                    inc_blocks = {d_[0] for d_ in f.defs().get(cv[1], []) if f.expr_of_def(d_) in inc}
+                    L_ = innermost_loop(f, pushes[0]['block'])
+                    ok4 = ok4 and bool(L_) and bool(inc_blocks) and inc_blocks <= L_[1] and not cycle_without(f, L_[1], L_[0], inc_blocks)
                     det = 'value ∈ %s; counter ∈ %s' % ([show(d)[:60] for d in vdefs], [show(d)[:60] for d in cdefs])
         L = innermost_loop(f, pushes[0]['block'])
         sty, src = loop_source(f, L) if L else (None, None)
@@ -403,7 +407,7 @@ def enum(ctx):
         ok4 = ok4 and every
         nm = strip(pe[1][0]) if pe[0] == 'tuple' else None
         ok4 = ok4 and nm is not None and nm[0] == 'field' and nm[2] == '0'
-    ctx.ob(['C08', 'C20'], 'R-EXPR', 'E4|discriminant-counter', ok4, 'each variant gets its literal or the counter; the counter starts at 0 and is always set to value + 1; every statement is pushed once in order: %s' % det, where)
+    ctx.ob(['C08', 'C20', 'C13'], 'R-EXPR', 'E4|discriminant-counter', ok4, 'each variant gets its literal or the counter; the counter starts at 0 and is always set to value + 1; every statement is pushed once in order: %s' % det, where)
     # G12 default consistency
     dflt = strip(ed['defaultable'])
     di = strip(ed['default_index'])
